@@ -100,6 +100,7 @@ Leak(k, e) ==
                 THEN <<V(k, "C14", <<"reference cycle closed by opcode", e.cycle_op, "bytes leaked", e.leaked>>)>> ELSE <<>>)
             \o (IF e.leaked # 0 /\ ~e.cycle THEN <<V(k, "C14", <<"heap not released, no reference cycle", e.leaked>>)>> ELSE <<>>)
             \o (IF e.leaked = 0 /\ e.cycle THEN <<D(k, "cycle", "reference cycle observed but no leak measured")>> ELSE <<>>)
+            \o (IF e.shared # 0 THEN <<D(k, "shared-cell", "two stack slots hold the same cell (Heap!Unshared does not hold on this run)")>> ELSE <<>>)
     /\ UNCHANGED <<fresh, digests, covered, ops>>
 
 (* ---- C13: the front end produces the library's bytes for the configuration that
